@@ -5,6 +5,7 @@ pid, k = sys.argv[1], sys.argv[2]
 wt = f"/tmp/seed_{pid}_{k}"
 subprocess.run(["git", "-C", "/repo", "worktree", "add", "--detach", wt], check=True, capture_output=True)
 p = [json.loads(l) for l in open("/verif/properties.jsonl") if json.loads(l)["id"] == pid][0]
+wt_tag = f"{pid}_{k}"
 text = f"""You are helping to evaluate a verification effort for the open-source LUNA USB gateware library (Python / Amaranth HDL).
 You have your own scratch git worktree of the repository at {wt} (work ONLY there; never touch /repo or /verif, and do
 not read anything under /verif). Python: /venv/bin/python; run things with `cd {wt} && PYTHONPATH={wt} /venv/bin/python ...`
@@ -28,8 +29,9 @@ swapped priority, a width that is too small, ...) such that
     something ordinary use would expose at once.
 Then write a demonstration `{wt}/demo_{pid}.py`: a small self-contained program (Amaranth simulator) that exits 0 / prints PASS
 on the unchanged code and exits non-zero / prints FAIL with your change, by exhibiting the violated behaviour.
-Verify all three facts yourself (tests pass with the change; demo fails with the change; demo passes without it — use
-`git stash` to switch). Do not commit. Leave the change applied in the worktree as an uncommitted diff and the demo file in place.
+Verify all three facts yourself (tests pass with the change; demo fails with the change; demo passes without it). To switch,
+save your change with `git diff > /tmp/mychange_{wt_tag}.patch`, undo it with `git apply -R` of that file and re-apply it with `git apply` —
+NEVER use `git stash` (the stash is shared between all worktrees of this repository and other people are using it). Do not commit. Leave the change applied in the worktree as an uncommitted diff and the demo file in place.
 Reply with: the diff (git diff), what it needs in order to manifest, the demo's output with and without the change, and the
 test-suite summary line with the change.
 """
